@@ -1784,19 +1784,25 @@ Proof. split; vm_compute; reflexivity. Qed.
 Lemma full_refuted_marker_on_marker : ~ full_property.
 Proof. refute_with cfg_rec w_ptrptr. Qed.
 
-(* a marked container inside a marked container: the validator keeps one marker id, the inner
-   marker overwrites the outer one *)
+(* repaired (/repo 192c5da, validator): a marked container inside a marked container — the former
+   witness, pinned, and a two-element cycle *)
 Definition f_n : finfo := mkF [78] true false ONever 9223372036854775807%Z.
 Definition w_inner : gval := VPtr 2 (VStruct 1 [(f_n, VNilPtr)]).
 Definition w_outer : gval := VPtr 3 (VStruct 1 [(f_n, w_inner)]).
 Definition w_nested : gval := VSlice 1 [VIface w_outer; VIface w_outer; VIface w_inner].
-Lemma nested_markers_rejected :
-  supported default_rcfg cfg_rec 0 w_nested = true
-  /\ accepts_document default_rcfg (iterate cfg_rec (Some w_nested)) = false
-  /\ described_rec (iterate cfg_rec (Some w_nested)) = Some (canon cfg_rec w_nested).
+(* a := &T{N: b}; b := &T{N: a}; the innermost occurrence of a is the back edge *)
+Definition w_cycle : gval := VPtr 2 (VStruct 1 [(f_n, VPtr 3 (VStruct 1 [(f_n, VPtr 2 VNilPtr)]))]).
+Lemma nested_markers_accepted :
+  iterate cfg_rec (Some w_nested)
+  = [EBeginDoc; EVersion 0; EList; EMarker [48]; EMap; EStringArray AT_String [110]; EMarker [49]; EMap;
+     EStringArray AT_String [110]; ENull; EEnd; EEnd; ERefLocal [48]; ERefLocal [49]; EEnd; EEndDoc]
+  /\ accepts_document default_rcfg (iterate cfg_rec (Some w_nested)) = true
+  /\ described_rec (iterate cfg_rec (Some w_nested)) = Some (canon cfg_rec w_nested)
+  /\ iterate cfg_rec (Some w_cycle)
+     = [EBeginDoc; EVersion 0; EMarker [48]; EMap; EStringArray AT_String [110]; EMap; EStringArray AT_String [110];
+        ERefLocal [48]; EEnd; EEnd; EEndDoc]
+  /\ accepts_document default_rcfg (iterate cfg_rec (Some w_cycle)) = true.
 Proof. repeat split; vm_compute; reflexivity. Qed.
-Lemma full_refuted_nested_markers : ~ full_property.
-Proof. refute_with cfg_rec w_nested. Qed.
 
 (* two slices that start at the same address with different lengths are taken for one object *)
 Definition w_same_base : gval :=
